@@ -10,8 +10,8 @@ prop(
     needs_bin=True,
     stages=[
         dict(run="^TestPropRemoval$",
-             quick=dict(checks=1600, shards=16, timeout=900, shrinktime="15s"),
-             thorough=dict(checks=32000, shards=16, timeout=5400, shrinktime="60s")),
+             quick=dict(checks=1600, shards=16, timeout=1800, shrinktime="15s"),
+             thorough=dict(checks=32000, shards=16, timeout=10800, shrinktime="60s")),
     ],
     rule="a history = 1-2 commits on main with 1-4 files x 1-4 rules whose kind is random and whose names come from one 5-name "
          "vocabulary shared by recording and alerting rules (duplicate providers and same-name rules of the other kind arise on "
